@@ -206,7 +206,7 @@ func runCheck(eng *Engine, o checkOpts, t0 time.Time) int {
 			continue
 		}
 		// failed: retry unknowns once with a longer timeout before reporting
-		if d.Res.Status == "unknown" {
+		if d.Res.Status == "unknown" && d.InstSat == "" {
 			res2 := solveFile(d.File, timeout*3, nil)
 			if res2.Status == "unsat" {
 				nDis++
